@@ -320,9 +320,11 @@ func runHist(c fw.Case, p params, rec *fw.Recorder) {
 		case k < 975:
 			x.setLimit(t, genLimit(r, ti == 0), genPeriod(r, focus), genSubset(r, p.Users, 25))
 		default:
+			x.timeoutNext = r.Intn(4) == 0
 			x.execute(t)
 		}
 	}
+	x.timeoutNext = false
 	// drain: execute everything that is still pending, batch by batch
 	for _, t := range e.m.toks {
 		for i := 0; i < 400 && !x.stop; i++ {
@@ -548,9 +550,9 @@ func run(c fw.Case, tier string, rec *fw.Recorder) {
 
 func cases(tier string, seed int64) []fw.Case {
 	var cs []fw.Case
-	nh, ops := 30, 3000
+	nh, ops := 48, 4000
 	if tier == "thorough" {
-		nh, ops = 160, 6000
+		nh, ops = 320, 8000
 	}
 	cs = append(cs, fw.MkCase("flow", seed*7919+1, params{Mode: "flow"}))
 	for v := 1; v <= 4; v++ {
